@@ -234,6 +234,34 @@ def sanitizer_signature(stderr):
 # ---------------------------------------------------------------------------
 # batch runner for the pure harness
 
+VG_AT = re.compile(r"^==\d+==\s+(?:at|by) 0x[0-9A-Fa-f]+: (\S+)")
+
+
+def valgrind_signature(stderr):
+    """memcheck report -> 'memcheck-<kind>/<top three libcoap frames>' or None"""
+    kind = None
+    frames = []
+    for line in (stderr or "").splitlines():
+        m = re.match(r"^==\d+== (Conditional jump|Use of uninitialised|Invalid (?:read|write|free)|"
+                     r"Syscall param|Source and destination overlap|Mismatched free|"
+                     r"Argument .* of function)", line)
+        if m and kind is None:
+            kind = m.group(1).lower().replace(" ", "-")
+            continue
+        if kind is not None:
+            f = VG_AT.match(line)
+            if f:
+                name = f.group(1)
+                if not name.startswith(("__wrap_", "vf_", "cmd_", "run_command", "main", "mem", "str",
+                                        "do_io")):
+                    frames.append(name)
+            elif frames and line.strip().endswith("=="):
+                break
+    if kind is None:
+        return None
+    return "memcheck-%s/%s" % (kind, "<".join(frames[:3]) or "harness")
+
+
 class BatchCrash:
     def __init__(self, index, stderr, rc):
         self.index = index
